@@ -1047,6 +1047,8 @@ func (x *Exec) evalClauseIn(s *State, env map[types.Object]*Term, fi *FuncInfo, 
 	}
 	x.bindResults(e, fi, c, vals)
 	s.env = e
+	x.clauseDepth++
+	defer func() { x.clauseDepth-- }()
 	x.clauseInfo = append(x.clauseInfo, c.Info)
 	x.oldStates = append(x.oldStates, oldState)
 	// make the callee's package info visible for identifier resolution
